@@ -66,10 +66,11 @@ Ret(v) == [Op("ret") EXCEPT !.val = v]
 \* shutdown_processor(force=False)
 Shutdown(r, final) ==
   <<W(Msg("alive", "-", r)),
-    X("yep!", "-", FALSE, (IF KillUnresponsive THEN <<Op("kill")>> ELSE <<>>) \o <<Op("wait"), Ret(final)>>),
+    X("yep!", "-", FALSE, (IF KillUnresponsive THEN <<Op("kill")>> ELSE <<>>) \o <<Op("wait"), Op("close"), Ret(final)>>),
     W(Msg("shutdown_daemon", "-", r)), Op("close"), Op("wait"), Ret(final)>>
 \* shutdown_processor(force=True)
-ForceShutdown(final) == <<Op("kill"), Op("wait"), Ret(final)>>
+\* (either way the instance is marked dead -- pid = None -- and is never handed a request again)
+ForceShutdown(final) == <<Op("kill"), Op("wait"), Op("close"), Ret(final)>>
 
 EnvFail == <<Ret("False")>>
 \* the daemon reports a failed environment transfer with TWO lines (the subshell's
@@ -199,14 +200,18 @@ PyRead(py, m) ==
          [] py.mode = "handler" ->
               IF m.cmd = "EOF" THEN RR(Raise(py, "InternalError"), <<>>, TRUE, FALSE)
               ELSE IF m.cmd = "phases" THEN
-                  IF m.arg = "succeeded" THEN RR([Next1(py) EXCEPT !.mode = "run"], <<>>, m.rid = py.rid, FALSE)
+                  IF m.arg = "succeeded" THEN
+                      \* get_ebuild_environment: "receive_env was never invoked" (py.got marks a received dump)
+                      IF "receive_env" \in py.extra /\ py.got = <<>> THEN RR(Raise(py, "InternalError"), <<>>, m.rid = py.rid, FALSE)
+                      ELSE RR([Next1(py) EXCEPT !.mode = "run"], <<>>, m.rid = py.rid, FALSE)
                   ELSE RR([py EXCEPT !.mode = "run", !.script = <<Ret("ProcessorError")>>], <<>>, m.rid = py.rid, FALSE)
               ELSE IF m.cmd \in Stoppers \/ m.cmd \notin (BaseHandlers \cup py.extra) THEN
                   RR(Raise(py, "UnhandledCommand"), <<>>, TRUE, FALSE)
               ELSE (CASE m.cmd = "request_inherit" ->
                           RR(py, <<Msg("path", "-", py.rid), Msg("eclassfile", "-", py.rid)>>, TRUE, FALSE)
                      [] m.cmd = "key" -> RR(py, <<>>, TRUE, FALSE)
-                     [] m.cmd = "receive_env" -> RR(py, <<>>, TRUE, FALSE)
+                     [] m.cmd = "receive_env" -> (IF py.got # <<>> THEN RR(Raise(py, "InternalError"), <<>>, TRUE, FALSE)   \* "invoked twice"
+                                                  ELSE RR([py EXCEPT !.got = <<TRUE>>], <<>>, TRUE, FALSE))
                      [] m.cmd \in Helpers -> RR([py EXCEPT !.mode = "helper", !.sub = 5], <<>>, TRUE, FALSE)
                      [] m.cmd = "request_bashrcs" ->
                           RR([py EXCEPT !.mode = "bashrc", !.sub = NBashrc], <<Msg("path", "-", py.rid), Msg("bashrcfile", "-", py.rid)>>, TRUE, FALSE)
